@@ -71,6 +71,22 @@ func u16Case(s string, n int) map[string]any {
 	}}
 }
 
+// noteVersion is the document version a conforming client sends with a note: the generator
+// records it in "v" (per-session numbering that restarts at 1 on every didOpen, as editors do; a
+// counter shared by all documents; or a constant 0 from clients that do not version); notes of
+// older replay files carry none and get the per-session numbering.
+func noteVersion(m map[string]any, ver map[string]int, u string) int {
+	if v, ok := m["v"]; ok && v != nil {
+		return toInt(v)
+	}
+	if m["k"] == "open" {
+		ver[u] = 1
+	} else {
+		ver[u]++
+	}
+	return ver[u]
+}
+
 // runHistImpl feeds a history to a fresh real Server in-process.  Every didChange is decoded
 // from JSON the way cmd/hledger-lsp/main.go's didChangeHandler does (optional range), so that
 // "range absent" and "zero range" meet the server as they do on the wire; op c01.wire runs
@@ -79,6 +95,7 @@ func runHistImpl(notes []any) []any {
 	srv := server.NewServer()
 	ctx := context.Background()
 	uris := map[string]bool{}
+	vers := map[string]int{}
 	var out []any
 	for _, n := range notes {
 		m := n.(map[string]any)
@@ -88,7 +105,7 @@ func runHistImpl(notes []any) []any {
 		case "open":
 			t, _ := m["t"].(string)
 			_ = srv.DidOpen(ctx, &protocol.DidOpenTextDocumentParams{
-				TextDocument: protocol.TextDocumentItem{URI: protocol.DocumentURI(u), Text: t, Version: 1}})
+				TextDocument: protocol.TextDocumentItem{URI: protocol.DocumentURI(u), Text: t, Version: int32(noteVersion(m, vers, u))}})
 		case "change":
 			var changes []map[string]any
 			cs, _ := m["cs"].([]any)
@@ -105,7 +122,7 @@ func runHistImpl(notes []any) []any {
 				changes = append(changes, ch)
 			}
 			raw, err := marshal(map[string]any{
-				"textDocument":   map[string]any{"uri": u, "version": 2},
+				"textDocument":   map[string]any{"uri": u, "version": noteVersion(m, vers, u)},
 				"contentChanges": changes,
 			})
 			if err != nil {
@@ -143,6 +160,7 @@ func runHistImpl(notes []any) []any {
 // runHistWire sends the history to the built binary over stdio and reads the mirrored text
 // of every URI after every notification with the verif/getDocument hook.
 func runHistWire(w *wireClient, notes []any, prefix string) ([]any, error) {
+	vers := map[string]int{}
 	uris := map[string]bool{}
 	var out []any
 	for _, n := range notes {
@@ -152,7 +170,7 @@ func runHistWire(w *wireClient, notes []any, prefix string) ([]any, error) {
 		uris[u0] = true
 		switch m["k"] {
 		case "open":
-			w.notify("textDocument/didOpen", map[string]any{"textDocument": map[string]any{"uri": u, "languageId": "hledger", "version": 1, "text": m["t"]}})
+			w.notify("textDocument/didOpen", map[string]any{"textDocument": map[string]any{"uri": u, "languageId": "hledger", "version": noteVersion(m, vers, u0), "text": m["t"]}})
 		case "change":
 			var changes []map[string]any
 			cs, _ := m["cs"].([]any)
@@ -165,7 +183,7 @@ func runHistWire(w *wireClient, notes []any, prefix string) ([]any, error) {
 				}
 				changes = append(changes, ch)
 			}
-			w.notify("textDocument/didChange", map[string]any{"textDocument": map[string]any{"uri": u, "version": 2}, "contentChanges": changes})
+			w.notify("textDocument/didChange", map[string]any{"textDocument": map[string]any{"uri": u, "version": noteVersion(m, vers, u0)}, "contentChanges": changes})
 		case "close":
 			w.notify("textDocument/didClose", map[string]any{"textDocument": map[string]any{"uri": u}})
 		}
@@ -255,12 +273,41 @@ func genC01(c *Ctx) {
 		var notes []any
 		hl := 1 + r.IntN(c.N(12, 60))
 		conformingHist := r.IntN(5) != 0
+		// document versions as clients number them: 0 per open session (restart at 1 on every
+		// didOpen), 1 one counter for all documents, 2 always 0, 3 session numbering that starts
+		// at an arbitrary value
+		vstyle := r.IntN(4)
+		c.Count(fmt.Sprintf("versions.style%d", vstyle))
+		sess := map[string]int{}
+		global := 0
+		nextVer := func(u string, opening bool) int {
+			switch vstyle {
+			case 1:
+				global++
+				return global
+			case 2:
+				return 0
+			case 3:
+				if opening {
+					sess[u] = r.IntN(50)
+				} else {
+					sess[u]++
+				}
+				return sess[u]
+			}
+			if opening {
+				sess[u] = 1
+			} else {
+				sess[u]++
+			}
+			return sess[u]
+		}
 		for j := 0; j < hl; j++ {
 			u := uris[r.IntN(nu)]
 			switch x := r.IntN(10); {
 			case !open[u] && x < 8, x == 0:
 				t := genDoc(r, c.N(6, 20), c.N(12, 40))
-				notes = append(notes, map[string]any{"k": "open", "u": u, "t": t})
+				notes = append(notes, map[string]any{"k": "open", "u": u, "t": t, "v": nextVer(u, true)})
 				cur[u], open[u] = t, true
 				c.Count("note.open")
 			case x == 1:
@@ -283,7 +330,7 @@ func genC01(c *Ctx) {
 				if open[u] {
 					cur[u] = doc
 				}
-				notes = append(notes, map[string]any{"k": "change", "u": u, "cs": cs})
+				notes = append(notes, map[string]any{"k": "change", "u": u, "cs": cs, "v": nextVer(u, false)})
 				c.Count("note.change")
 			}
 		}
